@@ -2,6 +2,13 @@
 
 package ristretto
 
+import (
+	"reflect"
+	"unsafe"
+
+	"github.com/dgraph-io/ristretto/v2/z"
+)
+
 // White-box additions for C18 (see core.go for the wrappers). Restores a previously OBSERVED
 // state into a live tinyLFU so that the explicit-state search can continue from it without
 // replaying the whole history; no logic of the sketch or the policy is duplicated.
@@ -30,3 +37,91 @@ func (v VerifSketch) RowsInto(dst *[4][]byte) {
 // with its bitset so that a restored state is exactly an observed one).
 func (v VerifTinyLFU) DoorElemNum() uint64     { return v.p.door.ElemNum }
 func (v VerifTinyLFU) SetDoorElemNum(n uint64) { v.p.door.ElemNum = n }
+
+// ---- private state the sketch / TinyLFU may have gained -----------------------------------------
+// The C18 search continues from OBSERVED states written back into a live object. Fields this file
+// does not know by name are carried along as opaque bytes (part of the snapshot and of the state
+// key) when they are plain data; otherwise the search cannot restore states and says so.
+
+type verifFld struct{ off, size uintptr }
+
+func verifIsPlain(tp reflect.Type) bool {
+	switch tp.Kind() {
+	case reflect.Bool, reflect.Int, reflect.Int8, reflect.Int16, reflect.Int32, reflect.Int64,
+		reflect.Uint, reflect.Uint8, reflect.Uint16, reflect.Uint32, reflect.Uint64, reflect.Uintptr,
+		reflect.Float32, reflect.Float64, reflect.Complex64, reflect.Complex128:
+		return true
+	case reflect.Array:
+		return verifIsPlain(tp.Elem())
+	case reflect.Struct:
+		for i := 0; i < tp.NumField(); i++ {
+			if !verifIsPlain(tp.Field(i).Type) {
+				return false
+			}
+		}
+		return true
+	}
+	return false
+}
+
+func verifUnknownFields(tp reflect.Type, known ...string) (fs []verifFld, names []string, plain bool) {
+	plain = true
+	for i := 0; i < tp.NumField(); i++ {
+		f := tp.Field(i)
+		isKnown := false
+		for _, k := range known {
+			isKnown = isKnown || k == f.Name
+		}
+		if isKnown {
+			continue
+		}
+		names = append(names, tp.Name()+"."+f.Name)
+		fs = append(fs, verifFld{f.Offset, f.Type.Size()})
+		plain = plain && verifIsPlain(f.Type)
+	}
+	return
+}
+
+var verifSketchExtraFields, verifSketchExtraNames, verifSketchExtraPlain = verifUnknownFields(reflect.TypeOf(cmSketch{}), "rows", "seed", "mask")
+var verifTinyExtraFields, verifTinyExtraNames, verifTinyExtraPlain = verifUnknownFields(reflect.TypeOf(tinyLFU{}), "freq", "door", "incrs", "resetAt")
+
+// VerifSketchExtraInfo names the unknown fields of cmSketch, tinyLFU and z.Bloom and says whether
+// all of them are plain data.
+func VerifSketchExtraInfo() (names []string, plain bool) {
+	bn, bp := z.VerifBloomExtraInfo()
+	names = append(append(append(names, verifSketchExtraNames...), verifTinyExtraNames...), bn...)
+	return names, verifSketchExtraPlain && verifTinyExtraPlain && bp
+}
+
+func verifGetExtra(dst []byte, p unsafe.Pointer, fs []verifFld) []byte {
+	for _, f := range fs {
+		dst = append(dst, unsafe.Slice((*byte)(unsafe.Add(p, f.off)), f.size)...)
+	}
+	return dst
+}
+
+func verifSetExtra(p unsafe.Pointer, fs []verifFld, src []byte) []byte {
+	for _, f := range fs {
+		copy(unsafe.Slice((*byte)(unsafe.Add(p, f.off)), f.size), src[:f.size])
+		src = src[f.size:]
+	}
+	return src
+}
+
+// Extra appends the raw bytes of the unknown fields to dst; SetExtra writes them back.
+func (v VerifSketch) Extra(dst []byte) []byte {
+	return verifGetExtra(dst, unsafe.Pointer(v.s), verifSketchExtraFields)
+}
+func (v VerifSketch) SetExtra(src []byte) {
+	verifSetExtra(unsafe.Pointer(v.s), verifSketchExtraFields, src)
+}
+func (v VerifTinyLFU) Extra(dst []byte) []byte {
+	dst = verifGetExtra(dst, unsafe.Pointer(v.p), verifTinyExtraFields)
+	dst = verifGetExtra(dst, unsafe.Pointer(v.p.freq), verifSketchExtraFields)
+	return z.VerifBloomExtra(dst, v.p.door)
+}
+func (v VerifTinyLFU) SetExtra(src []byte) {
+	src = verifSetExtra(unsafe.Pointer(v.p), verifTinyExtraFields, src)
+	src = verifSetExtra(unsafe.Pointer(v.p.freq), verifSketchExtraFields, src)
+	z.VerifBloomSetExtra(v.p.door, src)
+}
